@@ -18,8 +18,8 @@ CorpusOf(e) == LET objs == Trace[e.c].objs IN {[id |-> objs[i].id, avail |-> obj
 NS(e) == Trace[e.c].nshards
 Real(e) == [res |-> e.res, pages |-> [i \in 1..Len(e.pages) |-> e.pages[i].items]]
 Merged(e) == ~(NS(e) = 1 /\ e.mode = "engine")
-KFExcuse(e) == Merged(e) /\ ((BugCursorChecksum /\ ChecksumClass(e.q)) \/ (BugAssocMerge /\ AssocClass(e.q)))
-Havoc(e) == Merged(e) /\ BugAssocMerge /\ AssocClass(e.q)
+KFExcuse(e) == Merged(e) /\ ((BugCursorChecksum /\ ChecksumClass(e.q)) \/ (BugAssocMerge /\ AssocClass(e.q)) \/ (BugAssocAbsent /\ AssocAbsentClass(e.q)))
+Havoc(e) == Merged(e) /\ ((BugAssocMerge /\ AssocClass(e.q)) \/ (BugAssocAbsent /\ AssocAbsentClass(e.q)))
 
 SessionShape(e) ==
   /\ \A i \in 1..Len(e.pages) : Len(e.pages[i].items) <= e.n /\ (e.pages[i].more => Len(e.pages[i].items) = e.n)
